@@ -281,8 +281,13 @@ prop("C18", "other",
      "read-only message table and the errString buffer); (b) for every function under a dfcc contract the frame "
      "(__CPROVER_assigns) is enforced: typed getters/setters, the choke point read_file_with_callback, "
      "readConfigWithCallback and the five restriction setters write only their out-parameters, their own object, "
-     "fresh memory and (choke point: nothing; setters: exactly the documented globals). Hence calls on disjoint "
-     "objects share no library memory beyond what the property exempts.",
+     "fresh memory and (choke point: nothing; setters: exactly the documented globals); (c) an access table "
+     "recomputed on every run from the goto program of the linked library: each documented process-wide object "
+     "is WRITTEN only by its documented writer (error-location record: the parser; drop-in list: "
+     "econf_set_conf_dirs; restriction variables: the five setters) and the error-location record is READ only by "
+     "its accessor, the restriction variables only by the choke point - so no per-object operation depends on or "
+     "modifies process-wide state beyond what the property exempts. Hence calls on disjoint objects share no "
+     "library memory beyond what the property exempts.",
      "Schedules are NOT explored (a different technique family would be needed); the parser, merge, writer and "
      "list functions are not under dfcc frames (their jobs compare inputs before/after instead); libc functions "
      "used are assumed MT-safe; callers are assumed not to share objects.",
